@@ -7,28 +7,17 @@ Lemma le64_dec_sum b0 b1 b2 b3 b4 b5 b6 b7 :
   le64_dec [b0; b1; b2; b3; b4; b5; b6; b7] =
   b0 + 256 * b1 + 65536 * b2 + 16777216 * b3 + 4294967296 * b4 + 1099511627776 * b5
   + 281474976710656 * b6 + 72057594037927936 * b7.
-Proof. unfold le64_dec. rewrite !N.shiftl_mul_pow2. lia. Qed.
+Proof. unfold le64_dec. rewrite !N.shiftl_mul_pow2. lia. Time Qed.
 
-(* a length field of which only the first j < 8 bytes were written *)
-Lemma le64_partial v j : v < 2 ^ 64 -> j < 8 ->
-  let l := le64_dec (btake j (le64 v) ++ zeros (8 - j)) in l <= v mod 2 ^ 56 /\ l < 2 ^ 56.
+Lemma partial_sum_bound b0 b1 b2 b3 b4 b5 b6 b7 j :
+  b0 < 256 -> b1 < 256 -> b2 < 256 -> b3 < 256 -> b4 < 256 -> b5 < 256 -> b6 < 256 -> j < 8 ->
+  le64_dec (btake j [b0; b1; b2; b3; b4; b5; b6; b7] ++ zeros (8 - j)) <=
+    b0 + 256 * b1 + 65536 * b2 + 16777216 * b3 + 4294967296 * b4 + 1099511627776 * b5 + 281474976710656 * b6.
 Proof.
-  intros Hv Hj.
-  pose proof (le64_roundtrip v Hv) as Hr. unfold le64 in *.
-  pose proof (byte_of_lt v 0). pose proof (byte_of_lt v 1). pose proof (byte_of_lt v 2).
-  pose proof (byte_of_lt v 3). pose proof (byte_of_lt v 4). pose proof (byte_of_lt v 5).
-  pose proof (byte_of_lt v 6). pose proof (byte_of_lt v 7).
-  remember (byte_of v 0) as b0 eqn:E0. remember (byte_of v 1) as b1 eqn:E1. remember (byte_of v 2) as b2 eqn:E2.
-  remember (byte_of v 3) as b3 eqn:E3. remember (byte_of v 4) as b4 eqn:E4. remember (byte_of v 5) as b5 eqn:E5.
-  remember (byte_of v 6) as b6 eqn:E6. remember (byte_of v 7) as b7 eqn:E7.
-  clear E0 E1 E2 E3 E4 E5 E6 E7.
-  rewrite le64_dec_sum in Hr.
-  assert (Hm : v mod 2 ^ 56 = b0 + 256 * b1 + 65536 * b2 + 16777216 * b3 + 4294967296 * b4 + 1099511627776 * b5
-               + 281474976710656 * b6).
-  { symmetry. change (2 ^ 56) with 72057594037927936.
-    apply (N.mod_unique v 72057594037927936 b7); lia. }
-  rewrite Hm. change (2 ^ 56) with 72057594037927936.
+  intros.
   assert (C : j = 0 \/ j = 1 \/ j = 2 \/ j = 3 \/ j = 4 \/ j = 5 \/ j = 6 \/ j = 7) by lia.
   destruct C as [->|[->|[->|[->|[->|[->|[->| ->]]]]]]];
-    vm_compute btake; vm_compute zeros; cbn [app]; rewrite le64_dec_sum; cbv zeta; lia.
-Qed.
+    cbn [btake N.eqb Pos.eqb N.pred Pos.pred_N Pos.pred_double]; 
+    match goal with |- context [zeros ?k] => let z := eval vm_compute in (zeros k) in change (zeros k) with z end;
+    cbn [app]; rewrite le64_dec_sum; lia.
+Time Qed.
